@@ -86,14 +86,15 @@ def menu():
         add(kind, "gn", items=[_item("y", None), _item("x", None, D2), _item("*args", None), _item("**kw", None)])  # (variadic parameters, documented with their stars)
         # a name the signature does not have (a key of **kw) after a typed item: neither annotation nor default may come from anywhere
         # (the name is a non-ASCII identifier)
-        add(kind, "gn", items=[_item("x", "int"), _item("größe", None), _item("y", None)])
+        # (... written right after an item whose default comes from the signature: nothing carries over to a name the signature does not have)
+        add(kind, "gn", items=[_item("y", None), _item("größe", None), _item("x", "int")])
     add("attributes", "gns", items=[_item("a", "int")])
     add("attributes", "gns", items=[_item("a", "list[int]"), _item("b", "bytes", D2)])  # written types that differ from the class body's annotations
     add("attributes", "gn", items=[_item("a", None, D2), _item("b", "str", D3)])
     add("attributes", "gn", items=[_item("b", "str"), _item("zß", "float"), _item("a", None)])  # zz: not an attribute of the parent
     for kind in ("returns", "yields", "receives"):
-        add(kind, "gn", items=[_item("r", "int")])
-        add(kind, "gn", items=[_item("", "str", D2), _item("ré", "int")])
+        add(kind, "gn", items=[_item("r", "int | None")])  # (types that contain spaces)
+        add(kind, "gn", items=[_item("", "str", D2), _item("ré", "dict[str, int]")])
     for kind in ("returns", "yields", "receives"):
         add(kind, "gn", items=[_item("r", "int", D5)])
     add("parameters", "gns", items=[_item("x", "int", D5)])
